@@ -264,6 +264,51 @@ theorem C18_contains (r : Registry) (n m : Bytes) (d : TDef) :
   · intro e h
     simp [applyOp, h]
 
+/-- **a taken name keeps its definition** — the definition each name is registered WITH after
+each call (`get?`; `announced r`, one definition metric per entry, is what every NBIRTH of the
+node carries for the registry). An accepted registration binds its own name to its own definition
+and no other name changes; a refused one — in particular one whose name is taken, whatever
+definition it offers — changes neither the registry nor what is announced; `deregister` frees
+exactly its name; `clear` everything -/
+theorem C18_taken_name_keeps_definition (r : Registry) (n m : Bytes) (d : TDef) :
+    (∀ r', register r n d = .ok r' → r'.get? m = if n == m then some d else r.get? m) ∧
+    (∀ e, register r n d = .error e →
+      applyOp r (.register n d) = r ∧ announced (applyOp r (.register n d)) = announced r) ∧
+    (r.has n = true → (applyOp r (.register n d)).get? n = r.get? n ∧
+      announced (applyOp r (.register n d)) = announced r) ∧
+    (deregister r n).get? m = (if m == n then none else r.get? m) ∧
+    announced (clear r) = [] := by
+  refine ⟨?_, ?_, ?_, get?_deregister r n m, rfl⟩
+  · intro r' h
+    obtain ⟨⟨_, hn, _, _⟩, rfl⟩ := (register_ok_iff r n d r').1 h
+    rw [get?_append, get?_single]
+    by_cases hm : (n == m) = true
+    · have : n = m := by simpa using hm
+      subst this
+      rw [(get?_none_iff r n).2 hn]
+    · have hm' : (n == m) = false := by simpa using hm
+      simp only [hm']
+      cases r.get? m <;> simp
+  · intro e h
+    have : applyOp r (.register n d) = r := by simp [applyOp, h]
+    rw [this]; exact ⟨rfl, rfl⟩
+  · intro hn
+    have : applyOp r (.register n d) = r := by
+      cases h : register r n d with
+      | error e => simp [applyOp, h]
+      | ok r' =>
+        obtain ⟨⟨_, hn', _, _⟩, _⟩ := (register_ok_iff r n d r').1 h
+        rw [hn] at hn'; cases hn'
+    rw [this]; exact ⟨rfl, rfl⟩
+
+/-- what the node announces is the registry: a name is announced iff it is registered, with the
+conversion (marked as a definition, no reference: `C18_definition_marked`) of the definition it
+is registered with, and once per entry -/
+theorem C18_announced (r : Registry) (n : Bytes) (mv : MV) :
+    ((n, mv) ∈ announced r ↔ ∃ d, (n, d) ∈ r ∧ mv = defToMV d) ∧
+    (announced r).map (·.1) = r.names :=
+  ⟨mem_announced r n mv, by simp [announced, Registry.names, List.map_map, Function.comp_def]⟩
+
 /-- `EoNBuilder::register_template` panics exactly when registration is refused -/
 theorem C18_builder (r : Registry) (name : Bytes) (d : TDef) :
     (builderRegister r name d = .panic ↔ ∃ e, register r name d = .error e) ∧
@@ -330,6 +375,13 @@ example : errOf (register [(A, dA)] C { dC with metrics := [instOf A [], instOf 
     = some .unregistered := by decide
 example : errOf (register [] bdSeqName dA) = some .invalidName := by decide
 example : errOf (register [(A, dA)] A dA) = some .duplicate := by decide
+-- a different definition under the taken name is refused and A keeps the one it was registered with
+example : errOf (register [(A, dA)] A dB) = some .duplicate := by decide
+example : announced (applyOps [] [.register A dA, .register A { dA with version := some [0x31] }])
+    = [(A, defToMV dA)] := rfl
+-- after `deregister` the name is free for the other definition
+example : (applyOps [] [.register A dA, .register A dC, .deregister A,
+    .register A { dA with version := some [0x31] }]).get? A = some { dA with version := some [0x31] } := rfl
 example : errOf (register [] A { dA with metrics := [.plain "" none none] })
     = some .invalidDefinition := by decide
 -- decoders
